@@ -13,11 +13,12 @@ import threading
 import vf
 
 SAN = {"getCommitConsensus": "getCommitConsensus", "getCommitConsensus/spread": "getCommitConsensusSpread",
+       "getCommitConsensus/empty": "getCommitConsensusEmpty", "getCommitConsensus/emptyThenClaims": "getCommitConsensusEmptyClaims",
        "commitDone/sigs": "commitDoneSigs", "commitDone/msgs": "commitDoneMsgs", "endorseDone": "endorseDone",
        "CheckSubmitBlock": "CheckSubmitBlock", "VerifyBlock": "VerifyBlock", "AddressFromBookkeepers": "AddressFromBookkeepers",
        "verifyHeader": "verifyHeader", "verifyHeaderListed": "verifyHeaderListed", "verifyHeaderDbft": "verifyHeaderDbft"}
 FNS = list(SAN.values())
-DECISION = ["getCommitConsensus", "getCommitConsensusSpread", "commitDoneSigs", "commitDoneMsgs", "CheckSubmitBlock",
+DECISION = ["getCommitConsensus", "getCommitConsensusSpread", "getCommitConsensusEmpty", "getCommitConsensusEmptyClaims", "commitDoneSigs", "commitDoneMsgs", "CheckSubmitBlock",
             "VerifyBlock", "AddressFromBookkeepers", "verifyHeader", "verifyHeaderDbft"]
 WITNESS = ["endorseDone"]
 FORMS = [("N-(N-1)/3", lambda n, c: n - (n - 1) // 3), ("N-6N/7", lambda n, c: n - 6 * n // 7), ("C+1", lambda n, c: c + 1),
